@@ -99,6 +99,9 @@ parse3(int argc, char ** argv, int abandon)
 			logopt("-x", ch); break;
 		GETOPT_OPTARG("-a"):
 			logopt("-a", ch); break;
+		/* (only GETOPT_DEFAULT has to come last: here the missing-argument label sits in the middle of the options) */
+		GETOPT_MISSING_ARG:
+			logopt("missing", ch); break;
 		GETOPT_OPT("--long"):
 			logopt("--long", ch); break;
 		GETOPT_OPTARG("--long-opt"):
@@ -107,8 +110,6 @@ parse3(int argc, char ** argv, int abandon)
 			logopt("--x", ch); break;
 		GETOPT_OPTARG("--a"):
 			logopt("--a", ch); break;
-		GETOPT_MISSING_ARG:
-			logopt("missing", ch); break;
 		GETOPT_DEFAULT:
 			logopt("default", ch); break;
 		}
